@@ -7,7 +7,9 @@ from kvmodel.printer import Printer, TRACE_PRELUDE
 def model_outcome(prog, budget=50000):
     it = Interp(budget)
     try:
-        return it.run(prog)
+        r = it.run(prog)
+        r["hint_failures"] = getattr(it, "hint_failures", 0)     # raised type checks, also those a try block caught
+        return r
     except ModelLimit as e:
         return {"kind": "limit", "why": str(e)}
     except RecursionError:
